@@ -17,6 +17,7 @@ let ev_str = function
   | EvRet (t, r) -> Some (Printf.sprintf "ret(%s,%s)" (zs t) (zs r))
   | EvBusy t -> Some (Printf.sprintf "busy(%s)" (zs t))
   | EvStale t -> Some (Printf.sprintf "stale(%s)" (zs t))
+  | EvUB t -> Some (Printf.sprintf "ub(%s)" (zs t))
 let rec filter_map f = function [] -> [] | x :: tl -> (match f x with Some y -> y :: filter_map f tl | None -> filter_map f tl)
 let entry_str e =
   Printf.sprintf "%s:%s#%s{%s}" (zs e.e_off) (zs e.e_len) (zs e.e_id) (String.concat "," (List.map zs e.e_wait))
